@@ -226,7 +226,7 @@ int main(int argc, char** argv) {
     }
     std::vector<Cfg> cfgs;
     for (int paced : {0, 1}) for (int pool : {1, 2}) for (int q : {2, 20}) {
-        if (pool == 2 && q == 20 && !T) continue;
+        if (q == 20 && !T && !(pool == 1 && paced == 1)) continue;      // quick: the large queue only with the paced producer
         cfgs.push_back(Cfg{"none", 0, pool, q, paced});
         for (int j = 1; j <= 3; ++j) cfgs.push_back(Cfg{"write", j, pool, q, paced});
         cfgs.push_back(Cfg{"close", 0, pool, q, paced});
